@@ -63,8 +63,6 @@ Hypothesis Hname : link_name_ok name = true.
 Hypothesis Hdims : dims_ok_vlen dims = true.
 Hypothesis Hcount : product dims = v_count elems.
 Hypothesis Hrun : v_run elems = Some (fin, ids).
-(* the file is shorter than 2^62 bytes *)
-Hypothesis Hsmall : eof fin < 4611686018427387904.
 
 Local Notation f := (image_v2_vlen name base dims elems).
 Local Notation refs := (v_refs elems).
@@ -81,13 +79,12 @@ Lemma eof_eq : v_eof elems = eof fin. Proof using Hrun. unfold v_eof. now rewrit
 
 Lemma Hrun' : run_close 4096 4096 (v_e0 elems) (map W elems) = Some (fin, ids).
 Proof. exact Hrun. Qed.
-Lemma eof_W64 : eof fin < Proofs.GHeap.W64.
-Proof. clear - Hsmall. unfold Proofs.GHeap.W64. blia. Qed.
-
 Lemma ids_len : length ids = length elems.
 Proof.
-  destruct (Proofs.GHeap.C12_roundtrip_lemma 4096 4096 _ _ fin ids Proofs.GHeap.params_shipped Hrun' eof_W64) as [H _].
-  now rewrite writes_map_W in H.
+  pose proof Hrun' as H. unfold run_close in H.
+  destruct (Proofs.GHeap.run_inv 4096 4096 Proofs.GHeap.params_shipped (map W elems) _ (Proofs.GHeap.Inv_init 4096 4096 (v_e0 elems)))
+    as (st & ids' & Hr & _ & _ & Hlen & _).
+  rewrite Hr in H. destruct (flush st); [|discriminate]. injection H as _ <-. now rewrite writes_map_W in Hlen.
 Qed.
 Lemma refs_blen : blen refs = 16 * v_count elems.
 Proof. unfold v_refs. rewrite ids_eq, refs_len, ids_len. reflexivity. Qed.
@@ -159,6 +156,13 @@ Proof.
   rewrite image_split_v, app_nil_r. exact (proj2 (chain_placed _ _ _ (concat pre) [] heap_chain pre_len_v)).
 Qed.
 
+(* the file is shorter than 2^62 bytes *)
+Hypothesis Hsmall : blen f < 4611686018427387904.
+Lemma eof_small : eof fin < 4611686018427387904.
+Proof. rewrite <- image_len_v. exact Hsmall. Qed.
+Lemma eof_W64 : eof fin < Proofs.GHeap.W64.
+Proof. pose proof eof_small. unfold Proofs.GHeap.W64. blia. Qed.
+
 Lemma blocks_nth_v i b : nth_error pre i = Some b -> nth_error blocks i = Some b.
 Proof. clear. intros H. unfold blocks_v2_vlen. rewrite nth_error_app1; [exact H|]. apply nth_error_Some. congruence. Qed.
 
@@ -203,14 +207,16 @@ Lemma e0_le_eof : v_e0 elems <= eof fin.
 Proof.
   rewrite <- image_len_v, image_split_v, !blen_app, pre_len_v. blia.
 Qed.
+Lemma eof_small' : v_e0 elems <= eof fin /\ eof fin < 4611686018427387904.
+Proof. split; [exact e0_le_eof|exact eof_small]. Qed.
 Lemma da_eq : da = 2195 + 16 * v_count elems.
 Proof. unfold v_dset_addr, dset_addr. rewrite refs_blen. reflexivity. Qed.
 Lemma da_bound_v : da + 600 < B63.
 Proof.
-  rewrite da_eq. pose proof e0_le_eof as H. unfold v_e0, OHDR_RESERVE in H. change DATA_ADDR with 2195 in H. unfold B63. blia.
+  rewrite da_eq. pose proof eof_small as Hs. pose proof e0_le_eof as H. unfold v_e0, OHDR_RESERVE in H. change DATA_ADDR with 2195 in H. unfold B63. blia.
 Qed.
 Lemma count_small : v_count elems < 18446744073709551616.
-Proof. pose proof e0_le_eof as H. unfold v_e0 in H. blia. Qed.
+Proof. pose proof eof_small as Hs. pose proof e0_le_eof as H. unfold v_e0 in H. blia. Qed.
 Lemma total_is_count : total_elems dims = v_count elems.
 Proof.
   rewrite <- Hcount. apply total_elems_product; [exact (proj1 (rank23 dims Hdims))|]. rewrite Hcount. exact count_small.
@@ -249,7 +255,7 @@ Proof.
   change (sbp SB') with SBP. rewrite (layout_roundtrip _ _ wf_ly_v).
   cbn [obind lift bind fst snd proj_dataspace proj_layout proj_vlen vlen_dt dt_size dsp_type dsp_dims ds_dims ly_class ly_addr ly_compact ly_chunk N.eqb Pos.eqb].
   fold (total_elems dims). rewrite total_is_count.
-  pose proof count_pos as HP. pose proof e0_le_eof as HE. unfold v_e0 in HE.
+  pose proof count_pos as HP. pose proof eof_small as Hs. pose proof e0_le_eof as HE. unfold v_e0 in HE.
   replace (v_count elems =? 0) with false by (symmetry; apply N.eqb_neq; blia).
   replace (18446744073709551616 <=? v_count elems * 16) with false by (symmetry; apply N.leb_gt; blia).
   rewrite run0_bind.
@@ -283,7 +289,7 @@ Proof.
   unfold wf_superblock, v_sb, encok_superblock.
   cbn [sp_version sp_offsize sp_lensize sp_base sp_root sp_superext sp_rootbtree sp_rootheap sp_eof].
   replace (CodecSuper.u64 (v_eof elems)) with true; [reflexivity|]. unfold CodecSuper.u64.
-  symmetry. apply N.ltb_lt. rewrite eof_eq. blia.
+  symmetry. apply N.ltb_lt. rewrite eof_eq. pose proof eof_small. blia.
 Qed.
 
 Lemma open_vlen n hfuel B : (3 < hfuel)%nat -> 1 <= B -> B = blen f / 8 + 1024 ->
